@@ -107,7 +107,7 @@ def text_point(ctx, case):
     try:
         out = asm.assemble(line + '\n', compress=False)
     except Exception as e:
-        r = ('refused', '%s: %s' % (type(e).__name__, str(e).splitlines()[-1]))
+        r = ('refused', '%s: %s' % (type(e).__name__, kernel.errline(e)))
     else:
         size = 2 if mn.startswith('c.') else 4
         if len(out) != size:
